@@ -61,9 +61,9 @@ func restoreIndex(rootGoitPath, path string, index *store.Index, tree *object.Tr
 			if !isUpdated {
 				return errors.New("fail to restore index")
 			}
-		} else {
-			return fmt.Errorf("error: pathspec '%s' did not match any file(s) known to goit", path)
 		}
+		// otherwise the path is neither staged nor in HEAD: the arguments were validated before anything
+		// was restored, so an earlier argument has already unstaged it
 	}
 
 	return nil
@@ -223,7 +223,8 @@ var restoreCmd = &cobra.Command{
 						continue
 					}
 					if !isNodeFound {
-						return fmt.Errorf("error: pathspec '%s' did not match any file(s) known to goit", arg)
+						// the path passed the validation above, so an earlier argument has already unstaged it
+						continue
 					}
 
 					// check if the arg is dir or not
